@@ -382,13 +382,14 @@ def match_tree(s, node, p, brackets_ok):
     elif k == "V":
         if node[0] != "V":
             raise Bad("interval", "shape")
-        try:
-            match_tree(s[1], node[1], p, True)
-            match_tree(s[2], node[2], p, True)
-        except Bad as b:
-            if b.kind == "float" and b.cond == "precision":
-                raise Bad("interval", "float-bound-precision")
-            raise
+        for sub, nd in ((s[1], node[1]), (s[2], node[2])):
+            try:
+                match_tree(sub, nd, p, True)
+            except Bad as b:
+                # Interval.__str__ prints a float bound with repr(): all the digits, whatever the precision option says
+                if b.kind == "float" and sub[0] == "X" and nd[0] == "N" and nd[1] == repr(fx(sub[1])):
+                    raise Bad("interval", "float-bound-precision")
+                raise
     elif k == "S":
         if node != ("S", s[1]):
             raise Bad("str", "text")
@@ -859,14 +860,15 @@ def gen_fmt_cases(rng, tier):
 
 
 def py_fmt(kind, p, v):
-    """Python's own formatter (kind 0: the double; kind 1: float(Fraction), or — for the repaired overflow
-    case — Fraction.__format__, which rounds the exact value)"""
+    """Python's own formatter (kind 0: the double; kind 1: float(Fraction), falling back to Decimal division
+    — precisionify_frac's rule — for a fraction beyond the float range)"""
     if kind == 0:
         return ("{:.%dg}" % p).format(v)
     try:
         return ("{:.%dg}" % p).format(float(v))
     except OverflowError:
-        return ("{:.%dg}" % max(1, p)).format(v)
+        from decimal import Decimal
+        return ("{:.%dg}" % p).format(Decimal(v.numerator) / Decimal(v.denominator))
 
 
 # ------------------------------------------------------------------------------------------- run
@@ -893,23 +895,24 @@ def run(ctx):
             seen.add(key)
             uniq.append(c)
     cases = uniq
+    import time
+    t0 = time.time()
     obs = C.run_impl(impl_case, cases, ctx["rundir"], limit=20.0)
+    C.log("c15: %d cases on the implementation in %.1fs" % (len(cases), time.time() - t0))
 
     # ---- model texts
-    mcases, mindex = [], {}
-    heavy, hindex = [], {}
+    # three lanes by the size of the numbers (long output strings overflow coqc's stack when too many share a file)
+    lanes = {"m": ([], {}), "b": ([], {}), "h": ([], {})}
 
     def want(mode, p, s):
         term = "(%d%%nat, %s, %s)" % (mode, C.coq_Z(p), coq_value(s))
-        if size_bits(s) > 320:
-            if term not in hindex:
-                hindex[term] = len(heavy)
-                heavy.append(term)
-            return ("h", hindex[term])
-        if term not in mindex:
-            mindex[term] = len(mcases)
-            mcases.append(term)
-        return ("m", mindex[term])
+        sz = size_bits(s)
+        lane = "h" if sz > 700 else ("b" if sz > 100 else "m")
+        terms, index = lanes[lane]
+        if term not in index:
+            index[term] = len(terms)
+            terms.append(term)
+        return (lane, index[term])
 
     refs = []
     for c, o in zip(cases, obs):
@@ -923,21 +926,24 @@ def run(ctx):
         refs.append(r)
     show = ("fun c => match c with (O, p, v) => display p false v | (S O, p, v) => display p true v "
             "| (_, p, v) => reentry_text p v end")
-    mout = hout = fout = None
+    mout = fout = None
     if ctx["model_ok"]:
-        mout = C.run_model(ctx["rundir"], "c15", IMPORTS, show, mcases, shard=250, extra_defs=EXTRA_DEFS,
-                           case_type="nat * Z * value")
-        hout = C.run_model(ctx["rundir"], "c15h", IMPORTS, show, heavy, shard=2, extra_defs=EXTRA_DEFS,
-                           case_type="nat * Z * value")
+        mout = {}
+        for lane, shard in (("m", 250), ("b", 12), ("h", 2)):
+            mout[lane] = C.run_model(ctx["rundir"], "c15" + lane, IMPORTS, show, lanes[lane][0], shard=shard,
+                                     extra_defs=EXTRA_DEFS, case_type="nat * Z * value")
         fterms = ["(%d%%nat, %s, %s)" % (k, C.coq_Z(p), coq_Q(Fraction(v))) for k, p, v in fmt_cases]
         fout = C.run_model(ctx["rundir"], "c15f", IMPORTS,
                            "fun c => match c with (O, p, q) => fmt_g p q | (_, p, q) => approx_text p q end",
                            fterms, shard=400, extra_defs=EXTRA_DEFS, case_type="nat * Z * Q")
 
+    n_model = sum(len(v[0]) for v in lanes.values())
+    C.log("c15: model texts (%s + %d formatter cases) after %.1fs" % ({k: len(v[0]) for k, v in lanes.items()}, len(fmt_cases), time.time() - t0))
+
     def model_text(ref):
         if ref is None or mout is None:
             return None
-        return (hout if ref[0] == "h" else mout)[ref[1]]
+        return mout[ref[0]][ref[1]]
 
     # ---- oracle 1: the external formatter
     fmt_bad = 0
@@ -1087,7 +1093,7 @@ def run(ctx):
         skipped_inputs_not_evaluating=skipped, traces_validated_against_impl=len(cases) - skipped,
         denotation_checks_passed=denote_checked, reentry_evaluations=reentry_checked,
         model_disagreements=disagreements, formatter_disagreements=fmt_bad,
-        kernel_lane_cases=(len(mcases) + len(heavy) + len(fmt_cases)) if mout is not None else 0,
+        kernel_lane_cases=(n_model + len(fmt_cases)) if mout is not None else 0,
         precisions=P_SET + P_EXTRA))
     rep.assumptions += [
         "CPython's float formatting ('{:.pg}'.format) and float() parsing are external: fmt_g is tied to the formatter by the "
